@@ -577,6 +577,14 @@ def run_c08(tier):
     files = []
     for i in range(0, len(sl), 150):
         files.append('\n'.join(P.spell_syllables(c.kind, c.syl) + c.dotsp + ''.join(c.toks) for c in sl[i:i + 150]))
+    # files larger than the usual 8 KiB read buffer, in the three byte alignments of 3-byte characters
+    bigf = []
+    chunk = sl[:1200]
+    body = '\n'.join(P.spell_syllables(c.kind, c.syl) + c.dotsp + ''.join(c.toks) for c in chunk)
+    for pad in ('', 'a', 'ab'):
+        bigf.append(pad + body)
+        bigf.append(pad + body.replace('\n', ' 가나다 \n'))
+    files += bigf
     for i in range(0, len(files), 8):
         tasks.append(('listing', files[i:i + 8], 'c08-%d' % i))
     collect(st, pmap(_c08_task, [(t,) for t in tasks]))
